@@ -11,6 +11,16 @@ covers any number of consecutive interrupted writes.  Deciding step = CrossHair 
 "Confirmed over all paths" = held; a counterexample is classified on the model, connected to the
 clean state by a crash chain, and replayed on a real temporary directory with the real function
 (chk/c18_replay.py) before it is reported; anything else is inconclusive.
+
+Caller level (chk/c18_callers.py): the property is about the checkpoint the ALGORITHMS write, so the same
+crash analysis is repeated through the real checkpointing loops - Optimizer._run, Optimizer._run_closure
+(LBFGS), MCMC.run, HMC.run and the save_full_state wrappers - which decide with which file name and which
+safely / overwrite flags save_parameters is reached.  Their options (checkpoint_all, checkpoint name with /
+without '.json', checkpoint_frequency, iterations, start epoch of a resumed run), the pre-state of the
+directory and the crash point of the whole run are symbolic; numerical collaborators are stubs.  A syntactic
+scan of the library makes sure that every call site of save_parameters / save_full_state is driven by one of
+these entries.  Counterexamples are replayed with the real algorithm objects (real torch optimisers, operators,
+integrator) on a real temporary directory.
 """
 from __future__ import annotations
 
@@ -24,7 +34,7 @@ import sys
 import time
 from concurrent.futures import ThreadPoolExecutor
 
-from vlib.core import VERIF, main_for
+from vlib.core import REPO, VERIF, main_for
 
 PID = 'C18'
 CLAUSE = {'c1': 'no-complete-file', 'c2': 'name-truncated', 'two_steps': 'no-complete-file'}
@@ -45,7 +55,7 @@ def crosshair(job):
     env['C18_OVERWRITE'] = '1' if overwrite else '0'
     env['C18_INV'] = enc(job['inv'])
     env['C18_SEL'] = enc(job['sel'])
-    env['PYTHONPATH'] = f'{VERIF}:/repo' + (':' + env['PYTHONPATH'] if env.get('PYTHONPATH') else '')
+    env['PYTHONPATH'] = f'{VERIF}:{REPO}' + (':' + env['PYTHONPATH'] if env.get('PYTHONPATH') else '')
     cmd = [sys.executable, '-m', 'chk.c18_xh', 'check', '--report_all', '--per_condition_timeout', str(timeout),
            '--per_path_timeout', str(max(5.0, timeout / 4)), f'chk.c18_harness.{fn}']
     t0 = time.time()
@@ -310,6 +320,280 @@ def fidelity(tr, K, grid_n, losts, safely=True, overwrite=False):
     return n, bad
 
 
+# ---------------------------------------------------------------- caller level (chk/c18_callers.py)
+CALLER_ARGS = ['ca', 'kind', 'fresh', 'freq', 'iters', 'epoch0', 'n0', 'o0', 'w0', 'crash_at', 'lost']
+CALLER_FILE = os.path.join(VERIF, 'chk', 'c18_callers.py')
+
+
+def _caller_lines():
+    """line range -> harness function of chk/c18_callers.py (CrossHair reports file:line)"""
+    with open(CALLER_FILE) as f:
+        tree = ast.parse(f.read())
+    return {n.name: (n.lineno, n.end_lineno) for n in tree.body if isinstance(n, ast.FunctionDef)}
+
+
+def caller_cfg(j):
+    sel = enc(j['sel'])
+    ca = {'*': '*', '0': 'False', '1': 'True'}[j['ca']]
+    return (f"callers.{j.get('fn', 'algo')}[{j['entry']},checkpoint_all={ca},name-kind={j['kind']},"
+            f"fresh={j['fresh']},K={j['K']},freq<={j['fmax']},iterations<={j['nmax']},pre in {{{sel}}}]")
+
+
+def crosshair_callers(job):
+    """One CrossHair process: conditions `algo` and `algo_twin` of chk.c18_callers for one entry / option region."""
+    env = dict(os.environ)
+    env.update({'C18_K': str(job['K']), 'C18_INV': enc(job['inv']), 'C18_SEL': enc(job['sel']), 'C18_ENTRY': job['entry'],
+                'C18_CA': job['ca'], 'C18_KIND': job['kind'], 'C18_FRESH': job['fresh'], 'C18_FMAX': str(job['fmax']),
+                'C18_NMAX': str(job['nmax'])})
+    env['PYTHONPATH'] = f'{VERIF}:{REPO}' + (':' + env['PYTHONPATH'] if env.get('PYTHONPATH') else '')
+    timeout = job['timeout']
+    cmd = [sys.executable, '-m', 'chk.c18_xh', 'check', '--report_all', '--per_condition_timeout', str(timeout),
+           '--per_path_timeout', str(max(10.0, timeout / 4)), 'chk.c18_callers.algo', 'chk.c18_callers.algo_twin']
+    t0 = time.time()
+    try:
+        p = subprocess.run(cmd, env=env, cwd=VERIF, capture_output=True, text=True, timeout=2 * (timeout * 1.5) + 60)
+        out, err, rc = p.stdout, p.stderr, p.returncode
+    except subprocess.TimeoutExpired as e:
+        out, err, rc = (e.stdout or ''), 'wall-clock timeout', -9
+        if isinstance(out, bytes):
+            out = out.decode(errors='replace')
+    wall = time.time() - t0
+    ranges = _caller_lines()
+    res = {fn: dict(job, fn=fn, level='caller', wall=wall / 2, rc=rc, verdict='unknown',
+                    msg=(out.strip() or err.strip())[-600:], args=None) for fn in ('algo', 'algo_twin')}
+    seen = set()
+    for ln in out.splitlines():
+        m = LINE.match(ln.strip())
+        if not m or not m.group('file').endswith('c18_callers.py'):
+            continue
+        fn = next((k for k, (a, b) in ranges.items() if a <= int(m.group('line')) <= b and k in res), None)
+        if fn is None or fn in seen:
+            continue
+        seen.add(fn)
+        msg = m.group('msg')
+        r = res[fn]
+        r['msg'] = msg[:600]
+        if msg.startswith('Confirmed over all paths'):
+            r['verdict'] = 'confirmed'
+        elif msg.startswith('false when calling'):
+            mm = re.search(re.escape(fn) + r'(\(.*?\))(?: \(which returns|$)', msg)
+            try:
+                call = ast.parse('f' + mm.group(1), mode='eval').body
+                vals = [ast.literal_eval(a) for a in call.args]
+                d = dict(zip(CALLER_ARGS, vals))
+                d.update({k.arg: ast.literal_eval(k.value) for k in call.keywords})
+                if set(d) == set(CALLER_ARGS) and all(isinstance(v, int) for v in d.values()):
+                    r['verdict'], r['args'] = 'refuted', d
+            except Exception:
+                pass
+    return [res['algo'], res['algo_twin']]
+
+
+def caller_plan(tier, invs):
+    jobs = []
+    regions = {'Optimizer._run': [('0', '*', '*'), ('1', '0', '1'), ('1', '0', '0'), ('1', '1', '*')],
+               'Optimizer._run_closure': [('0', '*', '*'), ('1', '0', '1'), ('1', '0', '0'), ('1', '1', '*')],
+               'MCMC.run': [('*', '*', '*')], 'HMC.run': [('*', '*', '*')]}
+    if tier == 'quick':
+        rounds = [(3, 2, 2, 400, [{CLEAN}])]
+    else:
+        def chunks(K):  # pre-state classes of the verified invariant, at most 3 triples per process
+            out = []
+            for a in (1, 0, 2):
+                g = sorted(s for s in invs[K] if s[0] == a)
+                out += [set(g[i:i + 3]) for i in range(0, len(g), 3)]
+            return out
+
+        rounds = [(3, 3, 3, 1800, chunks(3)), (5, 2, 2, 1800, [{CLEAN}])]
+    for K, fmax, nmax, timeout, groups in rounds:
+        for g in groups:
+            for entry, regs in regions.items():
+                for ca, kind, fresh in regs:
+                    jobs.append(dict(entry=entry, ca=ca, kind=kind, fresh=fresh, K=K, fmax=fmax, nmax=nmax,
+                                     timeout=timeout, inv=invs[K], sel=g, safely=True, overwrite=False))
+    return jobs
+
+
+def call_sites():
+    """Every function of the library under test that calls save_parameters / save_full_state (syntactic scan)."""
+    found = {}
+    root = os.path.join(REPO, 'torchtree')
+    for dp, _, files in os.walk(root):
+        for f in files:
+            if not f.endswith('.py'):
+                continue
+            path = os.path.join(dp, f)
+            with open(path) as fh:
+                src = fh.read()
+            if 'save_parameters' not in src and 'save_full_state' not in src:
+                continue
+            mod = os.path.relpath(path, REPO)[:-3].replace(os.sep, '.')
+
+            def visit(node, qual):
+                for ch in ast.iter_child_nodes(node):
+                    if isinstance(ch, (ast.FunctionDef, ast.AsyncFunctionDef, ast.ClassDef)):
+                        visit(ch, qual + [ch.name])
+                        continue
+                    for sub in ast.walk(ch):
+                        if isinstance(sub, ast.Call):
+                            fn = sub.func
+                            nm = fn.id if isinstance(fn, ast.Name) else (fn.attr if isinstance(fn, ast.Attribute) else None)
+                            if nm in ('save_parameters', 'save_full_state'):
+                                found.setdefault((mod, '.'.join(qual) or '<module>'), set()).add(nm)
+            visit(ast.parse(src), [])
+    return found
+
+
+def caller_coverage(tr, C):
+    """(a) every call site found in the library belongs to a driven entry, (b) every entry really executes the
+    functions it claims (concrete model run under a profiler hook), (c) source hashes into the evidence."""
+    import importlib
+
+    claimed = {}
+    for entry, (modname, _, fns) in C.ENTRIES.items():
+        for q in fns:
+            claimed.setdefault((modname, q), []).append(entry)
+    sites = call_sites()
+    for (mod, qual), names in sorted(sites.items()):
+        # a closure / nested function is covered through its enclosing claimed function
+        if not any(mod == m and (qual == q or qual.startswith(q + '.')) for (m, q) in claimed):
+            tr.inconc(f'checkpoint call site {mod}.{qual} (calls {sorted(names)}) is not driven by any C18 caller entry - '
+                      f'add it to chk/c18_callers.ENTRIES')
+    for (mod, q) in claimed:
+        if q.split('.')[-1] != 'run' and not any(mod == m and qual == q for (m, qual) in sites):
+            tr.inconc(f'claimed function {mod}.{q} no longer calls save_parameters / save_full_state (entry table stale)')
+    for entry, (modname, _, fns) in C.ENTRIES.items():
+        seen = set()
+
+        def prof(frame, event, arg):
+            if event == 'call':
+                co = frame.f_code
+                if co.co_filename.startswith(REPO):
+                    seen.add(co.co_qualname)
+
+        sys.setprofile(prof)
+        try:
+            fs, ctx = C.run_algo(entry, False, 0, 1, 1, 1, (C.M.K, -1, -1), (-1, -1, -1), 10 ** 6, 0)
+        finally:
+            sys.setprofile(None)
+        missing = [q for q in fns if q not in seen] + ([] if 'save_parameters' in seen else ['save_parameters'])
+        if missing or not ctx.calls:
+            tr.inconc(f'entry {entry} does not execute {missing} (calls recorded: {len(ctx.calls)})')
+        mod = importlib.import_module(modname)
+        for q in fns:
+            obj = mod
+            for part in q.split('.'):
+                obj = getattr(obj, part)
+            tr.fn(obj)
+    return sites
+
+
+def triage_caller(tr, res):
+    """A refuted caller condition: classify on the concrete model run, replay with the real algorithm."""
+    from chk import c18_callers as C
+
+    K = res['K']
+    M, R = model_for(K)
+    C.INV = frozenset(res['inv'])
+    a = res['args']
+    entry, ca, kind, fresh = res['entry'], bool(a['ca']), a['kind'], bool(a['fresh'])
+    pre = (a['n0'], a['o0'], a['w0'])
+    trace = []
+    fs, ctx = C.run_algo(entry, ca, kind, a['freq'], a['iters'], a['epoch0'], pre, C.other_of(fresh, pre),
+                         a['crash_at'], a['lost'], trace=trace)
+    tag = (f"{caller_cfg(res)} counterexample checkpoint_all={ca} checkpoint={C.NAMES[kind]!r} checkpoint_frequency={a['freq']} "
+           f"iterations={a['iters']} start_epoch={a['epoch0']} pre={fmt_state(M, pre)} other-names-{'absent' if fresh else 'same-state'} "
+           f"crash_at={a['crash_at']} lost={a['lost']}")
+    clause = 'name-truncated' if not ctx.c2 else ('no-complete-file' if not ctx.c1 else None)
+    if clause is None:
+        tr.inconc(f'{tag}: ' + ('final state leaves the verified invariant although both clauses hold (invariant not inductive '
+                                'through the caller)' if not ctx.ind else 'not a violation when the model is run concretely'))
+        return None
+    calls = [c for c in ctx.calls if c[3] <= a['crash_at']] or ctx.calls
+    if not calls:
+        tr.inconc(f'{tag}: clause {clause} violated without any save_parameters call (file system touched by the caller itself?)')
+        return None
+    file_name, safely, overwrite, at = calls[-1]
+    first = trace[at] if at < len(trace) else ('none', '')
+    path = first[1]
+    branch = ('in-place-write' if path == file_name else 'rename-branch' if path == file_name + '.new'
+              else f'other-branch[{path}]')
+    target = 'checkpoint-name' if file_name == C.NAMES[kind] else 'per-epoch-name'
+    sig = f'{entry}:{clause}:{branch}(safely={safely},overwrite={overwrite}):{target}'
+    families = {b: [int(x) for x in v] for b, v in fs.families.items()}
+    try:
+        out = R.run_caller(entry, ca, kind, a['freq'], a['iters'], a['epoch0'], families, a['crash_at'], a['lost'], K)
+    except Exception as e:
+        tr.inconc(f'{tag} [{sig}]: real replay failed: {type(e).__name__}: {e}')
+        return None
+    tr.witness_runs += 1
+    bad = (not out['c2']) if clause == 'name-truncated' else (not out['c1'])
+    if not bad:
+        tr.inconc(f'{tag} [{sig}]: did NOT reproduce with the real algorithm on the real file system: '
+                  f'{ {b: v["files"] for b, v in out["families"].items()} }')
+        return None
+    fam = _family(file_name)
+    where = trace[-1] if trace else ('none', '')
+    op = re.sub(r'\[\d+\]', '', where[0]).replace('CRASH-before-', '')
+    what = (f"{entry} (checkpoint={C.NAMES[kind]!r}, checkpoint_all={ca}, checkpoint_frequency={a['freq']}, iterations={a['iters']}, "
+            f"{out['start']}) reaches save_parameters({file_name!r}, safely={safely}, overwrite={overwrite}) = {branch} while "
+            f"{fmt_state(M, families.get(fam, pre))} exists under that name"
+            f"{' (left by an earlier run / the run it resumes)' if target == 'per-epoch-name' else ''}; the process dies before "
+            f"{op}({where[1]}) (operation {a['crash_at']} of the run, {a['lost']} buffered chunk(s) lost); real directory afterwards: "
+            f"{out['families'].get(fam, {}).get('files')} -> clause "
+            f"({'2: name refers to a truncated file' if clause == 'name-truncated' else '1: no complete checkpoint left under name/.old/.new'}) violated")
+    replay = {'level': 'caller', 'clause': clause, 'K': K, 'entry': entry, 'checkpoint_all': ca, 'kind': kind, 'freq': a['freq'],
+              'iters': a['iters'], 'epoch0': a['epoch0'], 'families': families, 'crash_at': a['crash_at'], 'lost': a['lost'],
+              'signature': sig,
+              'save_parameters_calls(file, safely, overwrite, op index at entry)': [list(c) for c in ctx.calls],
+              'crosshair': {'condition': caller_cfg(res), 'counterexample': a, 'message': res['msg'],
+                            'model_trace': [f'{x}({y})' for x, y in trace],
+                            'model_final_classes': {b: list(fs.family_classes(b)) for b in fs.families}},
+              'real': out}
+    tr.violation(sig, what, replay)
+    tr.sample({'condition': caller_cfg(res), 'verdict': 'refuted + replayed with the real algorithm on the real file system',
+               'signature': sig, 'what': what}, limit=12)
+    return sig, what
+
+
+def _family(path):
+    return path[:-4] if path.endswith(('.old', '.new')) else path
+
+
+def caller_fidelity(tr, K, tier):
+    """Caller-level model (stub collaborators, modelled FS) vs the real algorithms on the real file system: classes of
+    every family, operation count and both clause verdicts must agree.  Not a deciding step."""
+    from chk import c18_callers as C
+
+    M, R = model_for(K)
+    n = bad = 0
+    crashes = (1, 3, 6, 9, 40) if tier == 'quick' else (0, 1, 2, 3, 5, 6, 7, 8, 9, 11, 12, 14, 40)
+    combos = ((1, 2, 1), (2, 2, 1)) if tier == 'quick' else ((1, 2, 1), (2, 2, 1), (1, 2, 2), (2, 3, 2), (3, 3, 1))
+    for entry in C.ENTRIES:
+        for ca in (False, True):
+            for kind in (0, 1):
+                for fresh in ((False,) if tier == 'quick' else (True, False)):
+                    for freq, iters, e0 in combos:
+                        for crash in crashes:
+                            pre = (K, -1, -1)
+                            fs, ctx = C.run_algo(entry, ca, kind, freq, iters, e0, pre, C.other_of(fresh, pre), crash, 1)
+                            fam = {b: tuple(int(x) for x in v) for b, v in fs.families.items()}
+                            out = R.run_caller(entry, ca, kind, freq, iters, e0, fam, crash, 1, K)
+                            n += 1
+                            mc = {b: list(fs.family_classes(b)) for b in fs.families}
+                            rc = {b: v['after'] for b, v in out['families'].items()}
+                            if mc != rc or fs.ops != out['nops'] or (ctx.c1, ctx.c2) != (out['c1'], out['c2']) \
+                                    or len(ctx.calls) != out['save_parameters_calls']:
+                                bad += 1
+                                if bad <= 3:
+                                    tr.inconc(f'caller model/real mismatch {entry} checkpoint_all={ca} kind={kind} fresh={fresh} '
+                                              f'freq={freq} iterations={iters} start_epoch={e0} crash_at={crash}: model {mc} '
+                                              f'ops={fs.ops} clauses={(ctx.c1, ctx.c2)}, real {rc} ops={out["nops"]} '
+                                              f'clauses={(out["c1"], out["c2"])} raised={out["raised"]}')
+    tr.witness_runs += n
+    return n, bad
+
+
 # ---------------------------------------------------------------- plan
 def plan_for(tier, invs):
     """invs: K -> candidate invariant (set of class triples)"""
@@ -356,7 +640,8 @@ def body(chk):
                 'save_parameters on the modelled file system, over all pre-states, crash indices and lost-buffer '
                 'counts admitted by its precondition); distinct = different contract text / chunk count / flags / '
                 'pre-state class set; every condition is non-trivial (its reachability twin must be refuted by a run '
-                'that dies mid-write)')
+                'that dies mid-write); caller level: one case = one CrossHair condition around one symbolic run of a real '
+                'checkpointing loop (entry x checkpoint_all region x name kind x pre-state class set), same twin rule')
     chk.explanation = ('symbolic execution (CrossHair + z3) of the real save_parameters against a pure-Python file-system '
                        'model with symbolic pre-state, symbolic crash index and symbolic lost-buffer count; a candidate '
                        'invariant (set of absent/complete/truncated class triples, proposed by concrete exploration of the '
@@ -364,7 +649,11 @@ def body(chk):
                        'and clause (2) over one write with an arbitrary crash ("Confirmed over all paths" per condition); '
                        'counterexamples are replayed with the real function on a real temporary directory (crash injected '
                        'at the same operation, whole chain from the clean directory); model fidelity is cross-checked '
-                       'against the real file system on a concrete grid')
+                       'against the real file system on a concrete grid; the same analysis is repeated through the real '
+                       'checkpointing loops of Optimizer (Adam-style and LBFGS), MCMC and HMC with symbolic options '
+                       '(checkpoint_all, name, frequency, iterations, start epoch), so that the file name and the safely / '
+                       'overwrite flags with which save_parameters is reached are part of what the solver decides; caller-level '
+                       'counterexamples are replayed with the real algorithm objects on a real directory')
     M, R = model_for(3)
     mod = M.target_module()
     tr.fn(mod.save_parameters)
@@ -390,6 +679,25 @@ def body(chk):
         'any file-system facility outside the model (other open modes, shutil, tempfile, ...) raises ModelGap -> inconclusive; CrossHair audit wall stays on, so a real file-system write by the analysed code is flagged',
         'candidate invariant and crash chains for replays come from concrete breadth-first runs of the model (proposal / scenario construction only); inductiveness and both clauses are decided by CrossHair',
     }
+    tr.bounds['callers'] = ('entries Optimizer._run (any torch optimiser but LBFGS), Optimizer._run_closure (LBFGS), MCMC.run, HMC.run; '
+                            'symbolic options: checkpoint_all in {False, True}, checkpoint name in {"ckpt.json", "ckpt"} (with / without the '
+                            '".json" the per-epoch name is derived from), checkpoint_frequency 1..2, iterations 1..2, start epoch 1..2 '
+                            '(quick) / 1..3 each (thorough, K=3); crash index over the operations of the WHOLE run (up to 2 resp. 3 '
+                            'checkpoint writes) and lost chunks 0..K symbolic; pre-state: checkpoint name complete without siblings (quick), '
+                            'every class triple of the verified invariant (thorough, K=3); other base names the run writes (per-epoch '
+                            'files) either all absent or all in the same state as the checkpoint name; scheduler / convergence / loggers '
+                            '/ distributions options of Optimizer left at None (they do not reach the checkpoint block)')
+    tr.assumptions |= {
+        'caller level: loss / joint, torch optimiser (a stub subclass of torch.optim.LBFGS routes run() to _run_closure), MCMC operator, '
+        'HMC integrator are stubs that never touch the file system; SignalHandler is replaced (no SIGINT during the run); print is muted',
+        'caller level: a resumed run is entered through the real load_state_dict ({"iteration": start epoch}); HMC has no resumable epoch',
+        'caller level: a family b / b.old / b.new under which nothing existed at the last boundary (start of the run or a completed write) '
+        'carries no obligation (first write of a name: outside "written over an existing one")',
+        'caller level: the set of call sites of save_parameters / save_full_state is found by a syntactic scan of the library '
+        '(direct calls by name / attribute; a call through an alias or getattr would be missed)',
+    }
+    tr.stubs |= {'caller level: loss/joint model', 'caller level: torch optimiser (step / zero_grad / state_dict)',
+                 'caller level: MCMC operator', 'caller level: HMC integrator', 'caller level: SignalHandler', 'caller level: print'}
     tr.stubs |= {'open', 'file.write/flush/close/fileno', 'os.rename', 'os.replace', 'os.remove', 'os.unlink', 'os.fsync',
                  'os.path.lexists/exists/isfile', 'json.dump', 'json.dumps'}
 
@@ -402,10 +710,18 @@ def body(chk):
         tr.notes.append(f'K={K}: {len(reach[K])} concrete model states reached from the clean state; candidate invariant = '
                         f'{len(invs[K])} class triples (name,.old,.new; 0 absent 1 complete 2 truncated): {enc(invs[K])}')
     jobs = plan_for(tier, invs)
+    cjobs = caller_plan(tier, invs)
+    from chk import c18_callers as C
+
+    C.INV = frozenset(invs[3])
+    sites = caller_coverage(tr, C)
+    tr.notes.append('call sites of save_parameters / save_full_state in the library: ' +
+                    ', '.join(f'{m}.{q}' for (m, q) in sorted(sites)) + '; driven entries: ' + ', '.join(C.ENTRIES))
     t0 = time.time()
     fid = {}
-    with ThreadPoolExecutor(max_workers=16) as ex:
+    with ThreadPoolExecutor(max_workers=24 if tier == 'quick' else 16) as ex:
         futs = [ex.submit(crosshair, j) for j in jobs]
+        cfuts = [ex.submit(crosshair_callers, j) for j in cjobs]
         # model fidelity runs meanwhile in this process
         if tier == 'quick':
             fid[3] = fidelity(tr, 3, (-1, 1, 3), (0, 1))
@@ -415,7 +731,12 @@ def body(chk):
             fid[8] = fidelity(tr, 8, (-1, 3, 8), (0, 2))
             fidelity(tr, 3, (-1, 1, 3), (0, 1), safely=False)
             fidelity(tr, 3, (-1, 1, 3), (0, 1), overwrite=True)
+        model_for(3)
+        C.INV = frozenset(invs[3])
+        cfid = caller_fidelity(tr, 3, tier)
         results = [f.result() for f in futs]
+        cresults = [r for f in cfuts for r in f.result()]
+    tr.notes.append(f'caller-level model vs real algorithms on the real FS: {cfid[0]} runs, {cfid[1]} mismatches')
     tr.notes.append('model-vs-real-FS fidelity grid: ' + ', '.join(f'K={k}: {n} runs, {b} mismatches' for k, (n, b) in fid.items()))
 
     import chk.c18_harness as H
@@ -490,10 +811,56 @@ def body(chk):
                     ', '.join(f'{fn} {v} x{c}' for (fn, v), c in sorted(tally.items())) + '; refuted non-twin: ' +
                     ('; '.join(cfg_of(r) for r in results if r['verdict'] == 'refuted' and not r['fn'].endswith('_twin')) or 'none'))
 
+    # ---- caller level
+    csigs = {}
+    ctally = {}
+    for r in cresults:
+        tr.queries += 1
+        tr.regions += 1
+        tr.solver_s += r['wall']
+        tr.by_solver['crosshair(z3)'] = tr.by_solver.get('crosshair(z3)', 0) + 1
+        tr.obligation(f"{caller_cfg(r)} INV={enc(r['inv'])} :: {contract_of(C, r['fn'])}")
+        ctally[(r['fn'], r['verdict'])] = ctally.get((r['fn'], r['verdict']), 0) + 1
+        if r['verdict'] == 'confirmed':
+            tr.unsat += 1
+        elif r['verdict'] == 'refuted':
+            tr.sat += 1
+        else:
+            tr.unknown += 1
+    for r in cresults:
+        cfg = caller_cfg(r)
+        if r['fn'] == 'algo_twin':
+            if r['verdict'] != 'refuted':
+                tr.inconc(f'reachability twin {cfg} was not refuted ({r["verdict"]}: {r["msg"][:200]}) - its condition may hold vacuously')
+            continue
+        if r['verdict'] == 'confirmed':
+            tr.closures += 1
+            twin = next((x for x in cresults if x['fn'] == 'algo_twin' and caller_cfg(dict(x, fn='algo')) == cfg), {})
+            tr.sample({'condition': cfg, 'contract': contract_of(C, 'algo'), 'verdict': 'Confirmed over all paths',
+                       'crosshair_wall_s': round(r['wall'], 1), 'twin': twin.get('msg', '')[:200]}, limit=8)
+        elif r['verdict'] == 'refuted':
+            out = triage_caller(tr, r)
+            if out:
+                csigs.setdefault(out[0], []).append(cfg)
+        else:
+            tr.inconc(f'{cfg}: CrossHair gave no verdict ({r["msg"][:300]}; rc={r["rc"]}, {r["wall"]:.0f}s)')
+    for sig, where in csigs.items():
+        tr.notes.append(f'signature {sig} from {len(where)} caller condition(s): {"; ".join(where[:6])}')
+    tr.notes.append(f'caller-level crosshair conditions: {len(cresults)} (slowest process {2 * max([r["wall"] for r in cresults] or [0]):.0f}s): ' +
+                    ', '.join(f'{fn} {v} x{c}' for (fn, v), c in sorted(ctally.items())))
+
 
 def do_replay(path):
     r = json.load(open(path))['replay']
     _, R = model_for(r['K'])
+    if r.get('level') == 'caller':
+        bad, out = R.replay_caller(r)
+        print(f"  {r['entry']} checkpoint_all={r['checkpoint_all']} checkpoint={out['checkpoint']!r} frequency={r['freq']} "
+              f"iterations={r['iters']} ({out['start']}); dies before operation {r['crash_at']}: {' '.join(out['ops'])}")
+        for b, v in out['families'].items():
+            print(f"    {b}: {v['files']}")
+        print(('REPRODUCED ' if bad else 'NOT REPRODUCED ') + f"clause={r['clause']}")
+        return 1 if bad else 0
     bad, out = R.replay_dict(r)
     for s in out['steps']:
         print(f"  write crash_at={s['crash_at']} lost={s['lost']}: {' '.join(s['ops'])}\n    -> {s['after']}")
